@@ -34,6 +34,7 @@ ALPHA = [
     ('exec-data pid 20 by 1', lambda ts: [R('TRACE_DATA_EXEC', 0, (20, 0, 0, 0), tid=1, ts=ts)]),    # thread 1 emits both kinds of pairs
     ('thread-terminate of 1 reported by 2', lambda ts: [R('TRACE_DATA_THREAD_TERMINATE', 0, (1, 0, 0, 0), tid=2, ts=ts)]),
     ('exec-string by 1', lambda ts: [R('TRACE_STRING_EXEC', 0, tid=1, ts=ts, data=b'e' * 32)]),
+    ('exec-string-empty by 1', lambda ts: [R('TRACE_STRING_EXEC', 0, tid=1, ts=ts, data=bytes(32))]),    # declares the EMPTY name
     ('exec-string by 3', lambda ts: [R('TRACE_STRING_EXEC', 0, tid=3, ts=ts, data=b'f' * 32)]),     # thread 3 never emits the DATA half
 ]
 MAPS = [[], [(1, 10, 'A')], [(1, 10, 'A'), (2, 20, 'B')], [(1, 2, 'A'), (2, 1, 'B'), (3, 3, 'C')],   # tids collide with pids
@@ -146,6 +147,11 @@ def model(m, seq):
         elif nm.startswith('exec-data'):
             last_exec[1] = 20
             out.append((1, [(dict(tp), dict(pn))]))
+        elif nm.startswith('exec-string-empty'):
+            old = (dict(tp), dict(pn))
+            if 1 in last_exec:
+                pn[last_exec[1]] = ''
+            out.append((1, [old, (dict(tp), dict(pn))]))
         elif nm == 'exec-string by 3':
             out.append((3, [(dict(tp), dict(pn))]))      # no DATA record of thread 3 precedes it: nothing is renamed
         elif nm.startswith('exec-string'):
